@@ -81,9 +81,20 @@ package table
 //@ func (*ActiveTable).Txn
 //@   results resp, err
 //@   maypanic
-//@   requires t != nil && t.nh != nil && req != nil && (forall j int :: 0 <= j && j < len(req.Success) ==> req.Success[j] != nil) && (forall j int :: 0 <= j && j < len(req.Failure) ==> req.Failure[j] != nil)
+//@   requires t != nil && t.nh != nil && req != nil && (forall j int :: 0 <= j && j < len(req.Success) ==> req.Success[j] != nil && opNonNilPayload(req.Success[j])) && (forall j int :: 0 <= j && j < len(req.Failure) ==> req.Failure[j] != nil && opNonNilPayload(req.Failure[j]))
 //@   ensures [C10.txn.ro]    old(roAllRange(req)) ==> t.nh.nprop == old(t.nh.nprop) && t.nh.nstale == old(t.nh.nstale)
 //@   ensures [C16.txn.once]  t.nh.nprop <= old(t.nh.nprop) + 1
 //@   ensures [C16.txn.limits] !(okOps(req.Success) && okOps(req.Failure)) ==> err != nil && t.nh.nprop == old(t.nh.nprop)
 //@   modifies t.nh.nprop, t.nh.nsync, t.nh.nstale
 //@ pure func roAllRange(req *regattapb.TxnRequest) bool = (forall j int :: 0 <= j && j < len(req.Success) ==> typeIs(req.Success[j].Request, *regattapb.RequestOp_RequestRange)) && (forall j int :: 0 <= j && j < len(req.Failure) ==> typeIs(req.Failure[j].Request, *regattapb.RequestOp_RequestRange))
+
+// validateRequestOps: nil exactly when every operation respects the limits
+//@ func validateRequestOps
+//@   results err
+//@   requires forall j int :: 0 <= j && j < len(ops) ==> ops[j] != nil && opNonNilPayload(ops[j])
+//@   ensures [C16.validate.ok]  err == nil ==> okOps(ops)
+//@   ensures [C16.validate.bad] err != nil ==> !okOps(ops)
+//@   modifies nothing
+//@   loop 0 invariant -1 <= rangeindex && rangeindex < len(ops) && forall j int :: 0 <= j && j <= rangeindex ==> okOp(ops[j])
+// oneof wrappers produced by the decoder are never typed-nil and always carry their message
+//@ pure func opNonNilPayload(o *regattapb.RequestOp) bool = (typeIs(o.Request, *regattapb.RequestOp_RequestPut) ==> asType(o.Request, *regattapb.RequestOp_RequestPut) != nil && asType(o.Request, *regattapb.RequestOp_RequestPut).RequestPut != nil) && (typeIs(o.Request, *regattapb.RequestOp_RequestDeleteRange) ==> asType(o.Request, *regattapb.RequestOp_RequestDeleteRange) != nil && asType(o.Request, *regattapb.RequestOp_RequestDeleteRange).RequestDeleteRange != nil) && (typeIs(o.Request, *regattapb.RequestOp_RequestRange) ==> asType(o.Request, *regattapb.RequestOp_RequestRange) != nil && asType(o.Request, *regattapb.RequestOp_RequestRange).RequestRange != nil)
